@@ -447,6 +447,15 @@ func Probe(name string) {
 	raceOn()
 }
 
+// Tracef adds a line to the event trace (debugging aid; no effect on choices).
+func Tracef(format string, a ...any) {
+	s := active.Load()
+	if s == nil || s.cfg.Trace == nil {
+		return
+	}
+	s.cfg.Trace("    " + fmt.Sprintf(format, a...))
+}
+
 // Now is the simulated clock relative to the start of the run.
 func (s *Sim) Now() time.Duration { return time.Since(s.start) }
 
